@@ -693,3 +693,48 @@ func ruleEmptyPut(c *Check, rule string) {
 		c.Ok(rule, dn, fmt.Sprintf("%d continuing iterations: Merge(nil) per key; empty ⇒ skipped, otherwise one Put(key, value)", nb), c.P.Pos(df.Pos()))
 	}
 }
+
+// ruleNoOwnRejection: a strategy fails only because the iterator or LMDB
+// failed (or, where listed, because the input order is wrong). A path that
+// returns an error although every call on it succeeded rejects valid input on
+// its own authority: the iterator's decisions are then not applied.
+func ruleNoOwnRejection(c *Check, rule string, names ...string) {
+	for _, name := range names {
+		fn, paths := c.walkFn(rule, name, WalkConfig{})
+		if paths == nil {
+			continue
+		}
+		n, bad := 0, 0
+		for i := range paths {
+			p := &paths[i]
+			if p.End != "return" || len(p.Rets) == 0 || retIsNilErr(p) {
+				continue
+			}
+			n++
+			caused := false
+			for _, cd := range p.Conds() {
+				a := cd.Atom
+				if a.Kind == "bool" && strings.HasPrefix(a.A, "isnil(") && !cd.Truth && strings.Contains(a.A, "@t") {
+					caused = true
+				}
+			}
+			last := p.Rets[len(p.Rets)-1]
+			if strings.HasSuffix(last, "ErrNotSorted") {
+				caused = true // order violations are decided by the sorted-check rule
+			}
+			for j := range p.Events {
+				e := &p.Events[j]
+				if e.Kind == "call" && e.Res == last && strings.Contains(strings.Join(e.Args, ","), "ErrNotSorted") {
+					caused = true
+				}
+			}
+			if !caused {
+				bad++
+				c.Bad(rule, name+"/own-rejection", "the strategy returns an error on a path where neither the iterator nor LMDB reported one: valid input is refused (and what was applied before it stays applied only if the caller aborts)", c.pathPos(p), describe(c, p))
+			}
+		}
+		if bad == 0 {
+			c.Ok(rule, name+"/errors-have-cause", fmt.Sprintf("all %d error returns follow a failed iterator or LMDB call (or report unsorted input)", n), c.P.Pos(fn.Pos()))
+		}
+	}
+}
